@@ -52,6 +52,16 @@ P.update({
  'C15': dict(level='other', ref='DESIGN.md section 3 C15',
    text='Real client encoders -> bytes -> real listeners for boundary tables of 50 values x 8 timestamps x 7 names (symbolic indices; printf/strtod/pickle are C code): pickle identical, plaintext name identical, timestamp truncated, value within 5e-11 + ulp, +-inf kept. Batching: queue length 0..7 and ANY symbolic MAX_DATAPOINTS_PER_MESSAGE >= 1: concatenation of messages == queue, each message within the limit.'),
 })
+P.update({
+ 'C06': dict(level='other', ref='DESIGN.md section 3 C06',
+   text='Ring tables of the real ConsistentHashRing equal an independent reference implementation of the published algorithm entry for entry, and for EVERY ring position (symbolic int) the preference order equals the reference; removing/adding one destination changes every preference order only by deleting/inserting it (all positions); after every valid add/remove history of length <= 3 (from a full 3-node ring) the ring table and bookkeeping equal a fresh relay\'s, positions compared symbolically wherever tables differ. Fixed family of destination lists incl. fully colliding ones; md5/fnv concretised. One known finding (colliding replicas, middle node leaves).'),
+ 'C08': dict(level='other', ref='DESIGN.md section 3 C08',
+   text='Inductive flush step of the real MetricBuffer from a symbolic state (subset of 4-6 interval buffers created in non-sorted order, active/inactive since a symbolic interval, unbounded symbolic clock, MAX_AGGREGATION_INTERVALS 0..3, all 12 methods against reference functions), input step, event sequences of <=3/4 datapoints and flushes on a virtual clock, forwarding with symbolic rule results, rule patterns against a reference matcher on symbolic names, and an SMT lemma for the bucket alignment arithmetic translated from the source.'),
+ 'C16': dict(level='other', ref='DESIGN.md section 3 C16',
+   text='RelayRulesRouter.getDestinations against a reference evaluator for 1-4 real rules with symbolic match bits, continue flags, destination subsets and configured set; loadRelayRules on every 3-section file over 6 section kinds (symbolic indices) incl. the documented error cases, end to end through the router; aggregation-aware routing with symbolic rule results hashing exactly the aggregate names.'),
+ 'C19': dict(level='other', ref='DESIGN.md section 3 C19',
+   text='Create loop of the REAL writer with 0-3 schemas per list whose match result is a symbolic bit: create() receives the archives/xff/method of the first match, documented defaults otherwise; parseRetentionDef against a reference for 9 digit strings x 10 unit suffixes on both sides; loadStorageSchemas/loadAggregationSchemas on every 3-section file over 6 section kinds: complete sections in file order, default last, incomplete ones ignored without disturbing the others.'),
+})
 NA_PENDING = 'harness not implemented yet in this round (see DESIGN.md section 3 for the planned solver-based harness)'
 
 
